@@ -39,6 +39,8 @@ func main() {
 		os.Exit(2)
 	}
 	switch os.Args[1] {
+	case "astfuzz":
+		os.Exit(cmdASTFuzz(os.Args[2:]))
 	case "check":
 		os.Exit(cmdCheck(os.Args[2:]))
 	case "all":
